@@ -81,7 +81,7 @@ def look_for_number(arg):
                 return arg
             else:
                 looks_like_float = True
-    if looks_like_float:
-        return float(arg)
-    else:
-        return int(arg)
+    try:
+        return float(arg) if looks_like_float else int(arg)
+    except ValueError:  # e.g. "."
+        return arg
